@@ -690,6 +690,77 @@ class CliClsDup(ResourceBase):
         self._rec("on_b", (seqnum, msg))
 
 
+# --- a message class that is not defined at module level (its __qualname__ differs from its __name__) -------------
+class VpC20Namespace(object):
+    class VpC20Nested(VpC20MsgB.__mro__[1]):     # a Serializable defined inside a namespace class
+        value: int = 0
+
+
+class SrvClsNested(ResourceBase):
+    @server_event
+    def on_nested(self, client, seqnum: SeqNum, msg: VpC20Namespace.VpC20Nested):
+        self._rec("on_nested", (client, seqnum, msg))
+
+
+class CliClsNested(ResourceBase):
+    @client_event
+    def on_nested(self, seqnum: SeqNum, msg: VpC20Namespace.VpC20Nested):
+        self._rec("on_nested", (seqnum, msg))
+
+
+def run_nested(spec, ctx):
+    """register / dispatch / refuse-second / unregister / re-register for a nested message class with a class annotation,
+    on both dispatchers: the class a message is routed by is the same class a handler was registered for"""
+    for kind, cls in (("server", SrvClsNested), ("client", CliClsNested)):
+        case = {"part": "nested", "kind": kind}
+        ctx.case(case)
+        sink = []
+        disp = ServerMessageDispatcher() if kind == "server" else ClientMessageDispatcher()
+        res = cls("n1", sink)
+        disp.register(res)
+        msg = VpC20Namespace.VpC20Nested()
+        client, seq = object(), SeqNum(3)
+
+        def dispatch():
+            del sink[:]
+            if kind == "server":
+                disp.dispatch(client, seq, msg)
+            else:
+                disp.dispatch(seq, msg)
+        try:
+            dispatch()
+        except DispatchError:
+            ctx.violation("handler-not-invoked", "%s dispatcher: DispatchError for a nested message class although a handler is registered for it" % kind)
+        if len(sink) != 1 or sink[0][1] != "on_nested" or sink[0][2][-1] is not msg:
+            ctx.violation("wrong-handler", "%s dispatcher: nested message class routed to %r" % (kind, sink))
+        other = cls("n2", sink)
+        refused = False
+        try:
+            disp.register(other)
+        except Exception:
+            refused = True
+        if not refused:
+            ctx.violation("duplicate-accepted", "%s dispatcher accepted a second handler for the nested message class" % kind)
+        disp.unregister(res)
+        gone = False
+        try:
+            dispatch()
+        except DispatchError:
+            gone = True
+        if not gone or sink:
+            ctx.violation("unregister-ineffective", "%s dispatcher: handler for the nested class still invoked after unregister (%r)" % (kind, sink))
+        again = True
+        try:
+            disp.register(res)
+        except Exception:
+            again = False
+        if not again:
+            ctx.violation("register-refused-when-free", "%s dispatcher: re-register after unregister refused for the nested class" % kind)
+        ctx.nt(("nested", kind))
+        ctx.label("nested/" + kind)
+    ctx.sample({"part": "nested", "class": "VpC20Namespace.VpC20Nested"})
+
+
 def run_dupres(spec, ctx):
     """register(resource) of a resource with two handlers for one class must be refused (it IS 'a second handler for the
     same class'); whatever was installed before the refusal, a later dispatch calls at most one handler, once, with the
@@ -735,7 +806,7 @@ def run_dupres(spec, ctx):
 
 
 def plan(tier):
-    specs = [{"part": "dupres"}]
+    specs = [{"part": "dupres"}, {"part": "nested"}]
     kinds = ("server", "client")
     if tier == "quick":
         for kind in kinds:
@@ -761,6 +832,8 @@ def run_shard(spec, ctx):
         run_enum(spec, ctx)
     elif spec["part"] == "dupres":
         run_dupres(spec, ctx)
+    elif spec["part"] == "nested":
+        run_nested(spec, ctx)
     else:
         raise RuntimeError("c20 harness: unknown part %r" % (spec,))
 
@@ -769,6 +842,8 @@ def replay_case(case, ctx):
     ctx.case(case)
     if case.get("part") == "dupres":
         return run_dupres({}, ctx)
+    if case.get("part") == "nested":
+        return run_nested({}, ctx)
     if case.get("part") != "history":
         raise RuntimeError("c20 harness: unknown case %r" % (case,))
     run_history(ctx, case["kind"], case["ops"])
